@@ -322,6 +322,22 @@ func (c *Ctx) Eq(a, b *Term) *Term {
 		}
 	}
 	if a.S.K == SBV {
+		// zext(x) == k  <=>  x == k' (or false when k does not fit): keeps case assumptions and the code's own
+		// narrow comparisons the same term
+		if a.Op == OZext && b.IsConst() {
+			w := a.Args[0].S.W
+			if b.Val > mask(w) {
+				return c.False()
+			}
+			return c.Eq(a.Args[0], c.Const(w, b.Val))
+		}
+		if b.Op == OZext && a.IsConst() {
+			w := b.Args[0].S.W
+			if a.Val > mask(w) {
+				return c.False()
+			}
+			return c.Eq(b.Args[0], c.Const(w, a.Val))
+		}
 		// (x + c1) == (x + c2)
 		ba, ca := c.splitAdd(a)
 		bb, cb := c.splitAdd(b)
